@@ -198,8 +198,8 @@ def L(cid: int):  # noqa: N802
         merge({"classes": {f"G{u}": {"methods": [f"G{u}/g"]}}}, fn(f"G{u}/g", ["self", "a"])),
     )
     letters["enum"] = (
-        f"class E{u}(Enum):\n    A = 1\n    B = 2\n\n\nclass Z{u}(IntEnum):\n    pass\n",
-        {"enums": {f"E{u}": {"instances": [f"E{u}/A", f"E{u}/B"]}, f"Z{u}": {"instances": []}}, "enum_instances": [f"E{u}/A", f"E{u}/B"]},
+        f"class E{u}(Enum):\n    A = 1\n    B = 2\n    _H = 3\n    c_d = 4\n\n\nclass Z{u}(IntEnum):\n    pass\n",
+        {"enums": {f"E{u}": {"instances": [f"E{u}/A", f"E{u}/B", f"E{u}/_H", f"E{u}/c_d"]}, f"Z{u}": {"instances": []}}, "enum_instances": [f"E{u}/A", f"E{u}/B", f"E{u}/_H", f"E{u}/c_d"]},
     )
     letters["enum_with_method"] = (
         f"class EM{u}(Enum):\n    A = 1\n\n    def describe(self, a: int) -> int:\n        return a\n",
